@@ -79,7 +79,10 @@ def init_agent_correspondence(ctx, n_cases):
         arg = None if use_none else (np.array(raw, dtype=float) if (r.random() < 0.3 and kids[0][0] != "perm" and all(not isinstance(v, (list, np.ndarray)) for v in raw)) else raw)
         draw = []
         if use_none:
-            st = np.random.get_state(); draw = c13.norm(task.empty_solution()); np.random.set_state(st)   # the draw the real call will make
+            try:
+                st = np.random.get_state(); draw = c13.norm(task.empty_solution()); np.random.set_state(st)   # the draw the real call will make
+            except OverflowError:
+                continue        # a range upper - lower that overflows a double: numpy cannot draw from it (listed C06 finding), no construction to compare
         meta = {"task": tspec, "minmax": mm, "weights": weights, "obj": obj, "raw": None if use_none else repr(raw)}
         try:
             a = o._init_agent(arg); err = None
